@@ -96,3 +96,12 @@ CLAIMED["C16"] = (
  "any frame is acquired or queued, and the reserve/commit/consume discipline of Encode. Does not decide unmask(wire)==caller bytes as values nor partial transport writes.",
  COMMON_NOTE,
  "DESIGN.md section 5 C16")
+
+CLAIMED["C18"] = (
+ "table agreement (request headers, acceptance predicate), value identity of the key across header and hash, dominance of the acceptance checks, path enumeration of the handshake outcome, banned-flow (taint) on the leftover offset, loop/terminator recognition, field write-set vs reset-set comparison",
+ "Static necessary-condition analysis. Decides the upgrade request table (GET, mandatory headers before caller headers, fresh 16-byte crypto/rand base64 key, accept value derived from the same key and the GUID), "
+ "that success is dominated by IsUpgradeRes (101 + case-insensitive Upgrade: websocket) and equality of Sec-WebSocket-Accept with that derived value, that failure stores StateTerminated and success "
+ "StateActive before init, that the leftover offset is bytes.Index(received, CRLFCRLF)+4 and not a re-serialisation, that the response is read in a terminator-driven loop, and that every session-written "
+ "field is re-initialised by reset()/init(). Does not decide net/http's tolerance to header order/case/whitespace nor the server closing mid-handshake.",
+ COMMON_NOTE,
+ "DESIGN.md section 5 C18")
